@@ -358,7 +358,7 @@ pub fn gen_world(r: &mut Rng) -> Vec<Tree> {
     let steps = r.range(25, 90);
     // half of the histories are built around one adversarial scenario, played early (while the state is simple) and once
     // more later; the other half mixes everything
-    let focus: Option<usize> = if r.chance(1, 2) { Some(*r.pick(&[18usize, 19, 20, 21, 22, 23, 24, 25, 26, 27, 28, 8, 12])) } else { None };
+    let focus: Option<usize> = if r.chance(1, 2) { Some(*r.pick(&[18usize, 19, 20, 21, 22, 23, 24, 25, 26, 27, 28, 29, 29, 8, 12])) } else { None };
     for step in 0..steps {
         let k = r.below(nclients as u64);
         let id = ids[k as usize];
@@ -375,7 +375,7 @@ pub fn gen_world(r: &mut Rng) -> Vec<Tree> {
                 (r.range(1, 4), r.below(12000), r.below(256))
             }
         };
-        let w: [u32; 30] = [14, 16, 14, 3, 3, 6, 9, 9, 5, 2, 2, 2, 3, 3, 3, 2, 10, 2, 2, 3, 4, 3, 4, 3, 2, 3, 4, 3, 1, 3];
+        let w: [u32; 31] = [14, 16, 14, 3, 3, 6, 9, 9, 5, 2, 2, 2, 3, 3, 3, 2, 10, 2, 2, 3, 4, 3, 4, 3, 2, 3, 4, 3, 1, 3, 3];
         let case = match focus {
             Some(f) if step == 3 || step == 14 => f,
             _ => r.weighted(&w),
@@ -537,6 +537,54 @@ pub fn gen_world(r: &mut Rng) -> Vec<Tree> {
                 ops.push(l(vec![n(116u8)]));
             }
             23 => ops.push(l(vec![n(158u8), n(k), n(r.range(0, 300)), b(&r.bytes(300))])),
+            29 => {
+                // a hole in the slot table: everybody connects, the one that connected first leaves, then the others are
+                // addressed by id and by address (payloads both ways, keep-alives, a kick, a disconnect packet)
+                if nclients >= 2 {
+                    ops.push(l(vec![n(115u8), n(8u8)]));
+                    for j in 0..nclients as u64 {
+                        ops.push(l(vec![n(170u8), n(j), n(4u8)]));
+                    }
+                    ops.push(l(vec![n(114u8), n(ids[0]), b(&r.bytes(6))]));
+                    if r.chance(1, 2) {
+                        ops.push(l(vec![n(113u8), n(ids[0])]));
+                    } else {
+                        ops.push(l(vec![n(106u8), n(0u8)]));
+                        ops.push(l(vec![n(150u8), n(0u8), n(0u8), n(0u8), n(0u8), n(0u8)]));
+                    }
+                    ops.push(l(vec![n(116u8)]));
+                    for j in 1..nclients as u64 {
+                        ops.push(l(vec![n(114u8), n(ids[j as usize]), b(&r.bytes(9))]));
+                        ops.push(l(vec![n(152u8), n(j), n(0u8), n(0u8), n(0u8), n(0u8)]));
+                        ops.push(l(vec![n(105u8), n(j), b(&r.bytes(7))]));
+                        ops.push(l(vec![n(150u8), n(j), n(0u8), n(0u8), n(0u8), n(0u8)]));
+                        ops.push(l(vec![n(119u8), n(ids[j as usize])]));
+                    }
+                    let last = nclients as u64 - 1;
+                    match r.below(3) {
+                        0 => ops.push(l(vec![n(113u8), n(ids[last as usize])])),
+                        1 => {
+                            ops.push(l(vec![n(106u8), n(last)]));
+                            ops.push(l(vec![n(150u8), n(last), n(0u8), n(0u8), n(0u8), n(0u8)]));
+                        }
+                        _ => {
+                            ops.push(l(vec![n(111u8), n(20 * SEC)]));
+                            ops.push(l(vec![n(112u8), n(ids[last as usize])]));
+                        }
+                    }
+                    ops.push(l(vec![n(116u8)]));
+                    // the slot the first one left is taken by somebody else (a new attempt of the last client), then the
+                    // server is asked to send to the id that used to live there
+                    let tk = new_token(r, &mut ops, last as usize, now);
+                    ops.push(l(vec![n(102u8), n(last), n(now), n(tk)]));
+                    ops.push(l(vec![n(170u8), n(last), n(4u8)]));
+                    ops.push(l(vec![n(114u8), n(ids[0]), b(&r.bytes(5))]));
+                    ops.push(l(vec![n(114u8), n(ids[last as usize]), b(&r.bytes(5))]));
+                    ops.push(l(vec![n(152u8), n(last), n(0u8), n(0u8), n(0u8), n(0u8)]));
+                    ops.push(l(vec![n(152u8), n(last), n(1u8), n(0u8), n(0u8), n(0u8)]));
+                    ops.push(l(vec![n(116u8)]));
+                }
+            }
             27 => {
                 // the edge of the replay window: 255 to 257 payloads are generated, the newest arrives first, then the ones
                 // that lag by 254, 255 (still inside the window) and 256 (outside)
